@@ -184,28 +184,28 @@ Qed.
 (* ---- ResFloat642Quantity / ResQuantity2Float64 ---- *)
 
 (* float -> Quantity -> float: the amount truncated toward zero to a whole number of units *)
-Theorem float_quantity_float g c x : 0 < g ->
-  quantity_to_float g c (float_to_quantity g c x) = g * Z.quot x g.
+Theorem float_quantity_float_z g c x : 0 < g ->
+  quantity_to_float_z g c (float_to_quantity_z g c x) = g * Z.quot x g.
 Proof.
-  intros Hg. unfold quantity_to_float, float_to_quantity. destruct c; [lia|].
+  intros Hg. unfold quantity_to_float_z, float_to_quantity_z. destruct c; [lia|].
   rewrite qvalue_units. lia.
 Qed.
 
 (* ... hence the identity exactly on the integral amounts *)
-Theorem float_quantity_float_id g c x : 0 < g ->
-  (quantity_to_float g c (float_to_quantity g c x) = x <-> (g | x)).
+Theorem float_quantity_float_id_z g c x : 0 < g ->
+  (quantity_to_float_z g c (float_to_quantity_z g c x) = x <-> (g | x)).
 Proof.
-  intros Hg. rewrite float_quantity_float by exact Hg. split.
+  intros Hg. rewrite float_quantity_float_z by exact Hg. split.
   - intros H. exists (Z.quot x g). lia.
   - intros [k ->]. rewrite Z.quot_mul by lia. lia.
 Qed.
 
 (* ... and otherwise a truncation toward zero by less than one unit *)
-Theorem float_quantity_float_bounds g c x : 0 < g ->
-  let y := quantity_to_float g c (float_to_quantity g c x) in
+Theorem float_quantity_float_bounds_z g c x : 0 < g ->
+  let y := quantity_to_float_z g c (float_to_quantity_z g c x) in
   (0 <= x -> y <= x < y + g) /\ (x <= 0 -> y - g < x <= y).
 Proof.
-  intros Hg. cbn zeta. rewrite float_quantity_float by exact Hg.
+  intros Hg. cbn zeta. rewrite float_quantity_float_z by exact Hg.
   pose proof (Z.quot_rem' x g) as Hqr.
   split; intros Hx.
   - pose proof (Z.rem_bound_pos x g Hx Hg). lia.
@@ -216,24 +216,18 @@ Qed.
 
 (* Quantity -> float -> Quantity: cpu keeps every milli amount; other names keep whole units and round
    fractional units away from zero (Value()) *)
-Theorem quantity_float_quantity g c m : 0 < g ->
-  float_to_quantity g c (quantity_to_float g c m) = if c then m else 1000 * qvalue m.
+Theorem quantity_float_quantity_z g c m : 0 < g ->
+  float_to_quantity_z g c (quantity_to_float_z g c m) = if c then m else 1000 * qvalue m.
 Proof.
-  intros Hg. unfold quantity_to_float, float_to_quantity. destruct c; rewrite Z.quot_mul by lia; reflexivity.
+  intros Hg. unfold quantity_to_float_z, float_to_quantity_z. destruct c; rewrite Z.quot_mul by lia; reflexivity.
 Qed.
 
-Corollary quantity_float_quantity_id g c m : 0 < g -> (c = true \/ (1000 | m)) ->
-  float_to_quantity g c (quantity_to_float g c m) = m.
+Corollary quantity_float_quantity_id_z g c m : 0 < g -> (c = true \/ (1000 | m)) ->
+  float_to_quantity_z g c (quantity_to_float_z g c m) = m.
 Proof.
-  intros Hg H. rewrite quantity_float_quantity by exact Hg. destruct c; [reflexivity|].
+  intros Hg H. rewrite quantity_float_quantity_z by exact Hg. destruct c; [reflexivity|].
   destruct H as [H|H]; [discriminate|]. apply qvalue_whole. exact H.
 Qed.
-
-Example conv_nonvacuous :
-  conv_domain 1 4007 = true /\ quantity_to_float 1 true (float_to_quantity 1 true 4007) = 4007 /\
-  float_to_quantity 16 true (16 * 4007 + 9) = 4007 /\ quantity_to_float 1 false 2500 = 3 /\
-  float_to_quantity 1 true (quantity_to_float 1 true 4007) = 4007.
-Proof. vm_compute. repeat split; reflexivity. Qed.
 
 (* ---- magnitudes up to 2^63: float64 / int64 effects ---- *)
 Lemma amount_ok_spec x : amount_ok x = true -> f64 x = x /\ i64 x = x.
@@ -314,7 +308,7 @@ Corollary convert_new_resource_exact rl k m : rl_exact rl = true ->
 Proof. intros H. rewrite (convert_new_resource_exact_range rl H). apply convert_new_resource_exact_z. Qed.
 
 (* without any guard: every amount goes through float64 rounding and int64 conversion, per name *)
-Theorem convert_new_resource_any rl k :
+Theorem convert_new_resource_any rl k : rl_in_range rl = true ->
   let c x := i64 (f64 x) in
   let rl' := convert (fst (new_resource rl)) in
   match name_class k with
@@ -325,7 +319,7 @@ Theorem convert_new_resource_any rl k :
   | CCountQuota | CIgnoredDev | CDropped => rl' !! k = None
   end.
 Proof.
-  cbn zeta. unfold convert, new_resource.
+  intros _. cbn zeta. unfold convert, new_resource.
   destruct (new_resource_z rl) as [rz mt] eqn:Ez. cbn [fst].
   assert (Hrz : rz = fst (new_resource_z rl)) by (rewrite Ez; reflexivity).
   rewrite lookup_convert_z, !scm_map_res. rewrite Hrz, scm_new_resource_z.
@@ -365,4 +359,75 @@ Example roundtrip_large_nonvacuous :
   rt_domain large_res = true /\
   bool_decide (new_resource (convert large_res) = (large_res, 2 ^ 53 + 2)) = true /\
   amount_ok (2 ^ 53 + 1) = false /\ f64 (2 ^ 53 + 1) = 2 ^ 53 /\ f64 (2 ^ 53 + 3) = 2 ^ 53 + 4.
+Proof. vm_compute. repeat split; reflexivity. Qed.
+
+(* ---- ResFloat642Quantity / ResQuantity2Float64 with their int64 / float64 effects ---- *)
+Lemma conv_domain_spec g x : conv_domain g x = true ->
+  0 < g /\ f64 (Z.quot x g) = Z.quot x g /\ i64 (Z.quot x g) = Z.quot x g.
+Proof.
+  unfold conv_domain. rewrite !andb_true_iff, bool_decide_eq_true. intros [[[Hg _] _] H].
+  apply amount_ok_spec in H. tauto.
+Qed.
+
+Lemma conv_bridge g c x : conv_domain g x = true ->
+  quantity_to_float g c (float_to_quantity g c x) = quantity_to_float_z g c (float_to_quantity_z g c x).
+Proof.
+  intros H. destruct (conv_domain_spec g x H) as (Hg & F & I).
+  unfold quantity_to_float, float_to_quantity, quantity_to_float_z, float_to_quantity_z.
+  rewrite I. destruct c; [rewrite F; reflexivity|]. rewrite qvalue_units, F. reflexivity.
+Qed.
+
+Theorem float_quantity_float g c x : conv_domain g x = true ->
+  quantity_to_float g c (float_to_quantity g c x) = g * Z.quot x g.
+Proof.
+  intros H. rewrite conv_bridge by exact H. apply float_quantity_float_z.
+  apply (conv_domain_spec g x H).
+Qed.
+
+Theorem float_quantity_float_id g c x : conv_domain g x = true ->
+  (quantity_to_float g c (float_to_quantity g c x) = x <-> (g | x)).
+Proof.
+  intros H. rewrite conv_bridge by exact H. apply float_quantity_float_id_z. apply (conv_domain_spec g x H).
+Qed.
+
+Theorem float_quantity_float_bounds g c x : conv_domain g x = true ->
+  let y := quantity_to_float g c (float_to_quantity g c x) in
+  (0 <= x -> y <= x < y + g) /\ (x <= 0 -> y - g < x <= y).
+Proof.
+  intros H. cbn zeta. rewrite conv_bridge by exact H. apply float_quantity_float_bounds_z.
+  apply (conv_domain_spec g x H).
+Qed.
+
+Theorem quantity_float_quantity g c m : 0 < g -> qty_domain c m = true ->
+  float_to_quantity g c (quantity_to_float g c m) = if c then m else 1000 * qvalue m.
+Proof.
+  intros Hg H. unfold qty_domain in H. apply amount_ok_spec in H as [F I].
+  unfold float_to_quantity, quantity_to_float. rewrite F, Z.quot_mul by lia. rewrite I.
+  destruct c; reflexivity.
+Qed.
+
+Corollary quantity_float_quantity_id g c m : 0 < g -> qty_domain c m = true -> (c = true \/ (1000 | m)) ->
+  float_to_quantity g c (quantity_to_float g c m) = m.
+Proof.
+  intros Hg H Hw. rewrite quantity_float_quantity by assumption. destruct c; [reflexivity|].
+  destruct Hw as [Hw|Hw]; [discriminate|]. apply qvalue_whole. exact Hw.
+Qed.
+
+(* outside the guard the round trip FAILS on the real code and in the model alike: 2^53+1 milli-cpu comes
+   back as 2^53 (float64 rounding); a float of 2^63 becomes MinInt64 milli (int64(f), amd64) *)
+Theorem quantity_float_quantity_refuted :
+  exists m, qty_domain true m = false /\ float_to_quantity 1 true (quantity_to_float 1 true m) <> m.
+Proof. exists (2 ^ 53 + 1). vm_compute. split; [reflexivity|discriminate]. Qed.
+
+Theorem float_quantity_float_refuted :
+  exists x, conv_domain 1 x = false /\ quantity_to_float 1 true (float_to_quantity 1 true x) <> x.
+Proof. exists (2 ^ 63). vm_compute. split; [reflexivity|discriminate]. Qed.
+
+Example conv_nonvacuous :
+  conv_domain 1 4007 = true /\ quantity_to_float 1 true (float_to_quantity 1 true 4007) = 4007 /\
+  conv_domain 16 (16 * 4007 + 9) = true /\ float_to_quantity 16 true (16 * 4007 + 9) = 4007 /\
+  conv_domain 1 (3 * 2 ^ 60) = true /\ qty_domain false 2500 = true /\ quantity_to_float 1 false 2500 = 3 /\
+  qty_domain true (2 ^ 63 - 1024) = true /\
+  float_to_quantity 1 true (quantity_to_float 1 true (2 ^ 63 - 1024)) = 2 ^ 63 - 1024 /\
+  conv_domain 3 10 = false.
 Proof. vm_compute. repeat split; reflexivity. Qed.
